@@ -1,3 +1,4 @@
+import OutlineModel.Proofs.TieSalt
 import OutlineModel.Model.Auth
 import OutlineModel.Proofs.CipherList
 import OutlineModel.Gen.Consts
@@ -95,5 +96,24 @@ theorem wiring : Gen.Wiring.authServerSaltBeforeReplayCache = true ∧ Gen.Wirin
 /- non-vacuity -/
 example : isServerSalt (fun p => p.reverse ++ [1, 2, 3, 4]) 4 (getSalt (fun p => p.reverse ++ [1, 2, 3, 4]) 4 [9, 8, 7, 6, 5]) = true := by decide
 example : marked 16 4 16 = false ∧ marked 24 4 16 = true := by decide
+
+
+/-! ### The recogniser, about the code itself
+
+`Gen.Code.serverSaltGenerator.splitSalt / IsServerSalt` are TRANSLATED from service/server_salt.go on every run
+(extract/golean.go); HMAC (`getTag`) is a parameter. -/
+
+/-- the translated `IsServerSalt` never panics (given a tag of at least 4 bytes: HMAC-SHA1 has 20) and is the model's
+    recogniser with the generated mark length, for every HMAC, key and salt, short salts included -/
+theorem code_isServerSalt (getTag : Gen.Code.serverSaltGenerator → List UInt8 → List UInt8) (sg : Gen.Code.serverSaltGenerator)
+    (salt : List UInt8) (htag : ∀ p, 4 ≤ (getTag sg p).length) :
+    Gen.Code.serverSaltGenerator.IsServerSalt getTag sg salt = some (isServerSalt (getTag sg) Gen.serverSaltMarkLen salt) :=
+  Tie.Salt.isServerSalt_tie getTag sg salt htag
+
+/-- **code_own_salt_recognised**: the translated recogniser accepts every salt the model's generator issues -/
+theorem code_own_salt_recognised (getTag : Gen.Code.serverSaltGenerator → List UInt8 → List UInt8) (sg : Gen.Code.serverSaltGenerator)
+    (pre : List UInt8) (htag : ∀ p, 4 ≤ (getTag sg p).length) :
+    Gen.Code.serverSaltGenerator.IsServerSalt getTag sg (getSalt (getTag sg) Gen.serverSaltMarkLen pre) = some true := by
+  rw [code_isServerSalt getTag sg _ htag, own_salt_recognised (getTag sg) Gen.serverSaltMarkLen pre (htag pre)]
 
 end OutlineModel.Props.C08
